@@ -16,6 +16,16 @@ pub fn eval(case: &str) -> Out {
     if w.len() != 4 { return Out::ok("harnesserr args".into()); }
     let (bc, bp) = match (unhex(w[2]), unhex(w[3])) { (Some(a), Some(b)) => (a, b), _ => return Out::ok("harnesserr hex".into()) };
     let (c, p) = match (deserialize::<Params>(&bc), deserialize::<Params>(&bp)) { (Ok(c), Ok(p)) => (c, p), _ => return Out::ok("err".into()) };
+    // self-contained history: first hash a SHAPE TWIN of each full parameter set (same lengths everywhere, other bytes), so that a root that is
+    // remembered by shape / length / position rather than computed from the content shows on this case alone (and replays from it)
+    for x in [&c, &p] {
+        if let Params::Full(f) = x {
+            let mut g = f.clone();
+            for e in g.extension_space.iter_mut() { for b in e.iter_mut() { *b ^= 0x5a; } }
+            for b in g.fedpegscript.iter_mut() { *b ^= 0x5a; }
+            let _ = (g.calculate_root(), Params::Full(g.clone()).into_compact().map(|k| k.calculate_root()));
+        }
+    }
     let rc = c.calculate_root().to_byte_array();
     let rp = p.calculate_root().to_byte_array();
     let compact = c.clone().into_compact().map(|k| k.calculate_root().to_byte_array());
@@ -58,7 +68,23 @@ pub fn gen(rng: &mut ChaCha20Rng, n: usize, _thorough: bool) -> Vec<Case> {
         let p = c01::rparams(rng, &mut tags);
         let nt = !(c.is_null() && p.is_null());
         let _ = rng.gen::<u8>();
-        out.push(Case { text: format!("C19 {} {} {}", c01::caps(), hex(&ref_params_vec(&c)), hex(&ref_params_vec(&p))), tags, nontrivial: nt });
+        out.push(Case { text: format!("C19 {} {} {}", c01::caps(), hex(&ref_params_vec(&c)), hex(&ref_params_vec(&p))), tags: tags.clone(), nontrivial: nt });
+        // twin: the same parameter sets with the same SHAPE (all lengths equal) but other content in one committed field, evaluated right after
+        // the original in the same process and thread — a root that is remembered by shape, length or position shows here
+        if let Params::Full(f) = &c {
+            let mut g = f.clone();
+            let mut what = None;
+            if let Some(e) = g.extension_space.iter_mut().find(|e| !e.is_empty()) { let k = rng.gen_range(0..e.len()); e[k] ^= 0x55; what = Some("extension-entry"); }
+            else if !g.fedpegscript.is_empty() { let k = rng.gen_range(0..g.fedpegscript.len()); g.fedpegscript[k] ^= 0x55; what = Some("fedpegscript"); }
+            else if !g.signblockscript.is_empty() { let mut b = g.signblockscript.to_bytes(); let k = rng.gen_range(0..b.len()); b[k] ^= 0x55; g.signblockscript = elements::Script::from(b); what = Some("signblockscript"); }
+            if let Some(w) = what {
+                let mut t2 = tags.clone(); t2.push(format!("twin:{}", w));
+                let c2 = Params::Full(g);
+                out.push(Case { text: format!("C19 {} {} {}", c01::caps(), hex(&ref_params_vec(&c2)), hex(&ref_params_vec(&p))), tags: t2.clone(), nontrivial: true });
+                // ... and the original once more after the twin (swapped positions: proposed / current)
+                out.push(Case { text: format!("C19 {} {} {}", c01::caps(), hex(&ref_params_vec(&p)), hex(&ref_params_vec(&c))), tags: t2, nontrivial: nt });
+            }
+        }
     }
     out
 }
